@@ -530,14 +530,14 @@ func drawCase(t *rapid.T) *Case {
 
 func TestKDE(t *testing.T) {
 	ev.Rule(rule)
-	ev.Rapid(t, "c12-kde", 3000, 96000, func(rt *rapid.T) {
+	ev.Rapid(t, "c12-kde", 12000, 96000, func(rt *rapid.T) {
 		checkKDE.Run(rt, drawCase(rt))
 	})
 }
 
 func TestBandwidth(t *testing.T) {
 	ev.Rule(rule)
-	ev.Rapid(t, "c12-bandwidth", 800, 64000, func(rt *rapid.T) {
+	ev.Rapid(t, "c12-bandwidth", 4000, 64000, func(rt *rapid.T) {
 		n := rapid.IntRange(2, 60).Draw(rt, "n")
 		c := &BWCase{}
 		centre := rapid.Float64Range(-1000, 1000).Draw(rt, "centre")
